@@ -232,10 +232,78 @@ class ManifestPath(FnSpec):
         return [("container-path-plus-mf-json", z3.BoolVal(False) if not isinstance(res, PathVal) else res.t == z3.Concat(a.record.t, z3.StringVal("mf.json")), "the sidecar of <container>.ih5 is <container>.ih5mf.json, next to it")]
 
 
+class MfBytes(FnSpec):
+    file = "ih5/manifest.py"
+    qual = "IH5Manifest.__bytes__"
+    props = ("C10",)
+
+    def setup(self, cx):
+        me = SObj("IH5ManifestObj", name="self")
+        me.fields["json"] = lambda cx2, **kw: (cx2.effect("json", kw), SStr(z3.String("json_text_of_the_manifest")))[1]
+        return A(self=me)
+
+    def raises(self, cx, a):
+        return {}
+
+    def ensures(self, cx, a, res):
+        from pyvc.values import SVal as _SV
+
+        js = [e for e in cx.fx if e[0] == "json"]
+        t = getattr(res, "t", None)
+        enc = getattr(res, "encoding", None)
+        return [("json-text-plus-newline-in-utf8", z3.BoolVal(False) if t is None or len(js) != 1 or js[0][1] != {"indent": 2} else z3.And(t == z3.Concat(z3.String("json_text_of_the_manifest"), z3.StringVal("\n")), z3.BoolVal(enc in (None, "utf-8"))), "the sidecar's bytes are the manifest's JSON text (indent 2) with one trailing newline, UTF-8 encoded")]
+
+
+class MfSave(FnSpec):
+    file = "ih5/manifest.py"
+    qual = "IH5Manifest.save"
+    props = ("C10", "C02")
+
+    def init(self):
+        def _open(cx, path, mode):
+            cx.effect("open", path, mode)
+            return FileTok(path)
+
+        self.bindings["open"] = _open
+        self.bindings["bytes"] = lambda cx, o: (cx.effect("bytes-of", o), "the-manifest-bytes")[1]
+
+    def setup(self, cx):
+        return A(self=SObj("IH5ManifestObj", name="self"), path="the-sidecar-path")
+
+    def raises(self, cx, a):
+        return {}
+
+    def ensures(self, cx, a, res):
+        fx = [e[:-1] for e in cx.fx]
+        kinds = [e[0] for e in fx]
+        ok = kinds == ["open", "enter", "bytes-of", "write", "flush", "exit"] and fx[0][1] == "the-sidecar-path" and fx[0][2] == "wb" and fx[2][1] is a.self and fx[3][1] == "the-sidecar-path" and fx[3][2] == "the-manifest-bytes" and fx[4][1] == "the-sidecar-path"
+        return [("exactly-the-given-file-is-rewritten-with-the-manifest-bytes", z3.BoolVal(bool(ok)), "saving a manifest (re)writes exactly the file at the given path with bytes(manifest), flushes and closes it — no other file is opened")]
+
+
+class FileTok(SVal):
+    def __init__(self, path):
+        self.path = path
+
+    def meth___enter__(self, cx):
+        cx.effect("enter", self.path)
+        return self
+
+    def meth___exit__(self, cx, *a):
+        cx.effect("exit", self.path)
+        return False
+
+    def meth_write(self, cx, b):
+        cx.effect("write", self.path, b)
+
+    def meth_flush(self, cx):
+        cx.effect("flush", self.path)
+
+
 def add_mfparts(reg):
     reg.set_class_home("IH5UBExtManifestObj", "ih5/manifest.py", "IH5UBExtManifest")
     reg.set_class_home("IH5MFRecordObj", "ih5/manifest.py", "IH5MFRecord")
     if reg.class_homes.get("IH5MFRecord") is None:
         reg.set_class_home("IH5MFRecord", "ih5/manifest.py")
-    specs = [FromUserblock(), ExtGet(), ExtUpdate(), FreshManifest(), ManifestProp(), ManifestPath()]
+    reg.set_class_home("IH5ManifestObj", "ih5/manifest.py", "IH5Manifest")
+    specs = [FromUserblock(), ExtGet(), ExtUpdate(), FreshManifest(), ManifestProp(), ManifestPath(), MfBytes(), MfSave()]
     return specs
